@@ -129,6 +129,73 @@ def observe(case, variant, cuts, mode="read", source="iter", cfg=None, symcuts=F
     return ev, obs, c
 
 
+def worker_observe(case, variant, cuts, kind, mode):
+    """the same stream through the connection handling of a worker class (sync / gthread / async handle()): which
+    requests reach the application, where each was parsed from, what body it could read.  The parser object(s) the
+    worker creates are observed through RequestParser.mesg_class; -> (events, info, Concrete)"""
+    from drivers import conn as cdrv
+    from gunicorn.http import parser as gparser
+    from gunicorn.http.message import Request
+    c = cz.concretize(case["ms"], variant, case["cut"])
+    data = bytes(c.data)
+    segs = drv.segments(data, cuts)
+    cur = {"sock": None}
+    out = []
+
+    class Rec(Request):
+        def __init__(self, cfg, unreader, *a, **k):
+            sock = cur["sock"]
+            self._vstart = (sock.delivered - len(unreader.buf.getvalue())) if sock is not None else -1
+            super().__init__(cfg, unreader, *a, **k)
+
+    def app(environ, start_response):
+        rec = {"start": -1, "body": b"", "bodydone": False}
+        req = cur.get("req")
+        if req is not None:
+            rec["start"] = getattr(req, "_vstart", -1)
+        out.append(rec)
+        if mode == "read":
+            chunks = []
+            while True:
+                d = environ["wsgi.input"].read(8192)
+                if not d:
+                    break
+                chunks.append(d)
+                rec["body"] = b"".join(chunks)
+            rec["bodydone"] = True
+        start_response("200 OK", [("Content-Length", "2")])
+        return [b"ok"]
+    kw = {}
+    if case["ms"] and case["ms"][0].get("px") in ("on_ok", "on_bad"):
+        kw = {"proxy_protocol": True, "proxy_allow_ips": "*"}
+    cfg = cdrv.make_cfg(keepalive=2, **kw)
+    w = cdrv.make_worker(kind, cfg, app)
+    orig = w.handle_request
+
+    def hr(*a, **k):
+        cur["req"] = next((x for x in a if isinstance(x, Request)), None)
+        return orig(*a, **k)
+    w.handle_request = hr
+    old = gparser.RequestParser.mesg_class
+    gparser.RequestParser.mesg_class = Rec
+    realsock = cdrv.FakeSock
+
+    class Sock(realsock):
+        def __init__(self, *a, **k):
+            super().__init__(*a, **k)
+            cur["sock"] = self
+    cdrv.FakeSock = Sock
+    try:
+        r = cdrv.serve(kind, cfg, segs, app, worker=w, eof_dispatch=True)
+    finally:
+        gparser.RequestParser.mesg_class = old
+        cdrv.FakeSock = realsock
+    ev = [{"e": "req", "start": cz.byte_to_sym_offset(c, x["start"]) if x["start"] >= 0 else -1,
+           "data": cz.body_positions(c, x["body"]), "done": bool(x["bodydone"])} for x in out]
+    ev.append({"e": "fin", "kind": "worker-end"})
+    return ev, {"escaped": r.escaped, "wire": r.wire[:60].decode("latin-1")}, c
+
+
 def rand_cuts(rng, n, k=None):
     if n <= 1:
         return []
@@ -170,6 +237,25 @@ def c01(ctx):
                     traces.append({"ms": case["ms"], "cut": case["cut"], "mode": mode, "ev": ev})
                     meta.append({"family": f, "case": ci, "variant": v, "cuts": cuts, "mode": mode,
                                  "source": src, "exc": obs["exc"], "bytes": bytes(c.data).decode("latin-1")})
+    # the same streams through the workers' connection handling (keep-alive hand-backs between requests): the
+    # requests that reach the application are judged by the same strict reading
+    nw = 0
+    for f in ("pipeline", "trunc", "embed", "chunks"):
+        cases = emitted[f]
+        if len(cases) > (120 if ctx.quick else 1500):
+            cases = rng.sample(cases, 120 if ctx.quick else 1500)
+        for ci, case in enumerate(cases):
+            v = rng.randrange(cz.num_variants(case["ms"]))
+            n = len(cz.concretize(case["ms"], v, case["cut"]).data)
+            for kind in (("gthread", "async") if not ctx.quick else (rng.choice(["gthread", "async", "gthread", "sync"]),)):
+                mode = "skip" if f == "embed" else rng.choice(["read", "skip"])    # (an embedded request is no body data)
+                cuts = rand_cuts(rng, n)
+                ev, info, c = worker_observe(case, v, cuts, kind, mode)
+                traces.append({"ms": case["ms"], "cut": case["cut"], "mode": mode, "ev": ev})
+                meta.append({"family": f, "case": ci, "variant": v, "cuts": cuts, "mode": mode, "source": "worker:" + kind,
+                             "exc": info["escaped"], "bytes": bytes(c.data).decode("latin-1")})
+                nw += 1
+    ctx.coverage["worker_level_streams"] = nw
     judge(ctx, "C01", traces, meta)
     ctx.assumptions += [
         "streams are generated from the descriptor grammar of specs/HttpStream.tla (one strict reading by construction)",
